@@ -937,6 +937,7 @@ fn corpus() -> Vec<(&'static str, &'static str, Vec<&'static str>, &'static str)
         (S1, "subscription S { s t: s }\n", vec![], "two response keys for one field"),
         // unspread fragments are validated on their own, variables excepted (commit c67e45e)
         (S1, "query Q { a { id } }\nfragment U on A { a(x: $nope, zz: 1) ...V }\nfragment V on A { ...U nonexistent }\nfragment W on A { a(i: {a: \"s\"}, j: [$x]) }\n", vec![], "unspread fragments: argument errors, a cycle, an unknown field; variables are not reported"),
+        (S1, "query Q($i: Int) { a { ...F } }\nfragment F on A { a(x: $i) ...G }\nfragment G on I { id }\nfragment U on A @tag(name: \"u\") { a(x: $nope, j: [$free]) ...V ... on I { id } }\nfragment V on I { self { ...G } }\nfragment W on Query { n(x: 1) a { ...U } }\n", vec![], "an accepted document with never-spread fragments (U, V, W): every rule holds in them; their variables are nobody's"),
     ]
 }
 
